@@ -163,6 +163,12 @@ func (group *Group) AddRtmpPullSession(session *rtmp.PullSession) error {
 	group.mutex.Lock()
 	defer group.mutex.Unlock()
 
+	// pull的过程中，pull被关闭了（比如调用了stop_relay_pull接口），此时不再加入group
+	if !group.pullProxy.staticRelayPullEnable && !group.pullProxy.apiEnable {
+		Log.Warnf("[%s] relay pull stopped while pulling. wanna add=%s", group.UniqueKey, session.UniqueKey())
+		return base.ErrRelayPullStopped
+	}
+
 	if group.hasInSession() {
 		Log.Errorf("[%s] in stream already exist. wanna add=%s", group.UniqueKey, session.UniqueKey())
 		return base.ErrDupInStream
@@ -198,6 +204,12 @@ func (group *Group) AddRtmpPullSession(session *rtmp.PullSession) error {
 func (group *Group) AddRtspPullSession(session *rtsp.PullSession) error {
 	group.mutex.Lock()
 	defer group.mutex.Unlock()
+
+	// pull的过程中，pull被关闭了（比如调用了stop_relay_pull接口），此时不再加入group
+	if !group.pullProxy.staticRelayPullEnable && !group.pullProxy.apiEnable {
+		Log.Warnf("[%s] relay pull stopped while pulling. wanna add=%s", group.UniqueKey, session.UniqueKey())
+		return base.ErrRelayPullStopped
+	}
 
 	if group.hasInSession() {
 		Log.Errorf("[%s] in stream already exist. wanna add=%s", group.UniqueKey, session.UniqueKey())
